@@ -1241,3 +1241,208 @@ def check_c17(pid, tier, build, props):
 
 
 REGISTRY["C17"] = check_c17
+
+
+# --------------------------------------------------------------------------- C07 / C08 / C10
+def _src_results(tier):
+    from . import srcrun
+
+    return srcrun.get(tier, common.seed())
+
+
+def _vchk_col(o, tag):
+    for line in o.get("vchk", []):
+        if line.startswith("#" + tag):
+            return [int(x) for x in line.split()[1:]]
+    return None
+
+
+def check_c08(pid, tier, build, props):
+    from . import srcrun
+
+    t = common.Timer()
+    problems = base_problems(build, props, pid)
+    res = [o for o in _src_results(tier) if "src" in o]
+    violations = []
+    n_prune = ok_prune = n_sem = ok_sem = paths = 0
+    streams = {}
+    for o in res:
+        streams[o.get("stream")] = streams.get(o.get("stream"), 0) + 1
+        cls = srcrun.finding_class(o["src"]) if o.get("stream") != "clean" else None
+        if o["front"] == "timeout":
+            problems.append("analysis timed out for a program")
+            continue
+        if isinstance(o["front"], dict):
+            violations.append({"source": o["src"], "finding_class": cls,
+                               "witness": {"reason": "front end died with an internal error", "site": o["front"]["internal"]}})
+            continue
+        c = _vchk_col(o, "c08")
+        if c is not None:
+            n_prune += 1
+            if c == [1]:
+                ok_prune += 1
+            else:
+                violations.append({"source": o["src"], "witness": None,
+                                   "note": "pruned graph differs from the model Prune.prune of the unpruned graph"})
+        s = o.get("cfg_semantics")
+        if s is not None:
+            n_sem += 1
+            paths += o.get("cfg_paths", 0)
+            if s == "ok":
+                ok_sem += 1
+            elif isinstance(s, dict) and "harness" in s:
+                problems.append("path executor failed: %s" % s["harness"])
+            else:
+                violations.append({"source": o["src"], "finding_class": cls,
+                                   "witness": dict(s, reason="interpreting the graph differs from running the function")})
+    nth = len(props["theorems"])
+    unknown = [v for v in violations if not v.get("finding_class")]
+    coverage = {
+        "obligations": nth + 1,
+        "discharged": (nth if props["ok"] else 0) + (1 if n_prune and ok_prune == n_prune else 0),
+        "checker_cmd": "coqc Props/C08.v; build/extract/vchk (RunSrc.run_c08) on unpruned/pruned graphs; path-exhaustive "
+                       "execution of source vs block-by-block interpretation of the graph",
+        "trusted_base": TRUSTED + ["harness/vh/progs.py: program generator, oracle-driven executor and the block-by-block "
+                                   "graph interpreter (the reading of the property's semantics)", "CPython as the reference semantics"],
+        "theorems": props["theorems"],
+        "evaluations": n_prune + n_sem,
+        "distinct_nontrivial": len(set(o["src"] for o in res)),
+        "rule": "generated programs over the supported subset (assign, augmented assign, expression statements, return, "
+                "pass, if/elif/else, while/else, for/else, break, continue; tests that are calls, comparisons, not, "
+                "attribute/subscript, and/or chains) whose leaves call an oracle ext(k); stream 'clean' plus two streams "
+                "with one known-defective feature each; per program: model prune(unpruned) = pruned graph, and all "
+                "decision paths of the function (values 0/1/2 per oracle answer, up to 250 paths) compared with the "
+                "graph's interpretation; distinct by source text",
+        "programs_by_stream": streams, "pruning_agrees": ok_prune, "semantics_agrees": ok_sem,
+        "decision_paths_compared": paths,
+        "samples": [{"source": res[0]["src"]}] if res else [],
+        "traces_validated_against_impl": ok_prune,
+        "explanation": "Proved (U, Prune.v): pruning removes exactly the blocks unreachable from the entry, the no-op "
+                       "statements and blocks without instructions; every other instruction survives once, in order. Tie: "
+                       "model prune(unpruned graph) = the implementation's pruned graph, order-exact. NOT proved: the "
+                       "semantic statement - decided here by path-exhaustive differential execution against CPython "
+                       "(exploration, not a theorem). Known findings (test suite pins the behaviour): nested and/or "
+                       "operands are hoisted eagerly; a for target is initialised to None.",
+    }
+    return {"coverage": coverage, "violations": violations, "problems": problems, "level": "proof",
+            "wall_s": t.s(), "broken_name": "Props/C08.v / correspondence prune / path-exhaustive comparison"}
+
+
+def check_c07(pid, tier, build, props):
+    from . import srcrun
+
+    t = common.Timer()
+    problems = base_problems(build, props, pid)
+    allres = _src_results(tier)
+    violations = []
+    outcomes = {}
+    paths = 0
+    n = 0
+    for o in allres:
+        is_graph = "graph" in o
+        cls = None if is_graph or o.get("stream") == "clean" else srcrun.finding_class(o["src"])
+        ident = {"graph": o["graph"]} if is_graph else {"source": o["src"]}
+        p = o.get("pipeline")
+        key = p if isinstance(p, str) else "internal"
+        outcomes[key] = outcomes.get(key, 0) + 1
+        n += 1
+        if p == "timeout":
+            problems.append("analysis timed out")
+            continue
+        if isinstance(p, dict):
+            violations.append(dict(ident, finding_class=cls, witness={"reason": "pipeline died with an internal error",
+                                                                      "site": p["internal"]}))
+            continue
+        if p != "ok":
+            continue
+        if o.get("compiles") is False:
+            violations.append(dict(ident, witness={"reason": "regenerated source does not compile",
+                                                   "detail": o.get("compile_error"), "code": o.get("code", "")[:600]}))
+            continue
+        r = o.get("roundtrip")
+        paths += o.get("roundtrip_paths", 0)
+        if isinstance(r, dict) and "harness" in r:
+            problems.append("path executor failed: %s" % r["harness"])
+        elif r is not None and r != "ok":
+            violations.append(dict(ident, finding_class=cls,
+                                   witness=dict(r, reason="regenerated function behaves differently", code=o.get("code", "")[:800])))
+    coverage = {
+        "evaluations": n,
+        "distinct_nontrivial": len(set(json_key(o) for o in allres if o.get("pipeline") == "ok")),
+        "rule": "generated programs (as C08) through AST2SCFG -> restructure -> SCFG2AST, and closed CFGs of AST blocks "
+                "(all 3-block, sampled 4-block, random up to 15 blocks) through restructure -> SCFG2AST; outcome must be "
+                "'ok' or an explicit NotImplementedError; for 'ok' the regenerated source must compile and agree with the "
+                "original (function, or graph interpretation) on every enumerated decision path: sequence of oracle "
+                "calls, returned value / exception type; non-trivial = outcome ok; distinct by source or graph",
+        "outcomes": outcomes, "decision_paths_compared": paths,
+        "samples": [{"source": o["src"]} for o in allres if "src" in o][:1],
+        "component_theorems": props["theorems"],
+        "explanation": "NO theorem decides C07. Exploration: path-exhaustive differential execution against CPython under "
+                       "an external oracle. Coq covers only the middle leg per instance (C01, C05) and the census of the "
+                       "regenerated tree (C10). Known findings carried over from C08 (nested and/or, for target).",
+    }
+    return {"coverage": coverage, "violations": violations, "problems": problems, "level": "exploration",
+            "wall_s": t.s(), "broken_name": "path-exhaustive round-trip comparison"}
+
+
+def json_key(o):
+    return o.get("src") or repr(o.get("graph"))
+
+
+def check_c10(pid, tier, build, props):
+    t = common.Timer()
+    problems = base_problems(build, props, pid)
+    allres = _src_results(tier)
+    violations = []
+    n = ok = 0
+    sizes = [0, 0, 0]
+    for o in allres:
+        if o.get("pipeline") != "ok":
+            continue
+        ident = {"graph": o["graph"]} if "graph" in o else {"source": o["src"]}
+        c = _vchk_col(o, "c10")
+        n += 1
+        if o.get("compiles") is False:
+            violations.append(dict(ident, witness={"reason": "regenerated source does not compile",
+                                                   "detail": o.get("compile_error")}))
+            continue
+        if o.get("unreserved"):
+            violations.append(dict(ident, witness={"reason": "regenerated source introduces names outside the reserved "
+                                                   "__scfg_..__ namespace", "names": o["unreserved"]}))
+            continue
+        if c == [1, 1, 1]:
+            ok += 1
+            for i, s in enumerate(o.get("census_sizes", [0, 0, 0])):
+                sizes[i] += s
+        else:
+            what = ["statements of original blocks", "control-variable assignments", "tests as if-conditions"]
+            violations.append(dict(ident, witness={"reason": "census mismatch: " + ", ".join(
+                w for w, v in zip(what, c or [0, 0, 0]) if v != 1), "code": o.get("code", "")[:800]}))
+    nth = len(props["theorems"])
+    coverage = {
+        "programs": n,
+        "disagreements_checked": len(violations),
+        "samples": [{"source": o["src"], "regenerated": o.get("code", "")[:400]} for o in allres
+                    if o.get("pipeline") == "ok" and "src" in o][:1] or [{"note": "no accepted program"}],
+        "census_accepted": ok,
+        "items_counted": {"statements": sizes[0], "assignments": sizes[1], "tests": sizes[2]},
+        "theorems": props["theorems"],
+        "obligations": nth, "discharged": nth if props["ok"] else 0,
+        "checker_cmd": "coqc Props/C10.v; build/extract/vchk (RunSrc.run_c10) on the identities of statements in the "
+                       "hierarchy vs the regenerated tree",
+        "trusted_base": ["Coq kernel", "extraction, ocaml/driver.ml",
+                         "harness/vh/srcpipe.py census_rows: identification of statements by object identity"],
+        "explanation": "Per regenerated tree (every accepted generated program and every accepted graph of AST blocks): "
+                       "the multiset of original statements, of control-variable assignments and of branching tests "
+                       "used as if-conditions equals what the restructured hierarchy holds - decided by the verified "
+                       "checker census_check (sound: equal multisets). A static census: covers code on paths no input "
+                       "exercises. Also checked by the harness: the output compiles; new identifiers match "
+                       "^__scfg_.*__$. Not proved: a universal census theorem over a model of SCFG2AST.",
+    }
+    return {"coverage": coverage, "violations": violations, "problems": problems, "level": "translation_validation",
+            "wall_s": t.s(), "broken_name": "census_check (Props/C10.v) on regenerated trees"}
+
+
+REGISTRY["C07"] = check_c07
+REGISTRY["C08"] = check_c08
+REGISTRY["C10"] = check_c10
